@@ -143,6 +143,10 @@ class SymbolCounter:
             self._classes.append([])
 
         if node.defines_local:
+            # A let that re-binds a name reads the outer value first, to
+            # restore it afterwards.
+            if getattr(node, 'shadows', False) and not self.is_variable(node.name):
+                self.freevars.add(node.name)
             self._counts[node.name] += 1
 
         if node.has_params and node.params:
